@@ -54,6 +54,17 @@ def configs(tier):
         ics = [('rho', None, None), ('sets', [0], []), ('sets', [1], [n - 1])]
         if tier == 'thorough' and n >= 4:
             ics.append(('sets', [0, 1], [2]))      # (needs a susceptible node left: closures divide by susceptible counts)
+        if n >= 4:
+            # two initially recovered nodes of the SAME degree (degree-class counters must accumulate), an infected node elsewhere
+            deg = dict(graphs.make(g).degree())
+            pair = None
+            for a in range(n):
+                for b in range(a + 1, n):
+                    if deg[a] == deg[b] and pair is None and len([v for v in range(n) if v not in (a, b)]) >= 2:
+                        pair = [a, b]
+            if pair:
+                i0 = [v for v in range(n) if v not in pair][:1]
+                ics.append(('sets', i0, pair))
         for entry in SIS_GRAPH + SIR_GRAPH + NODE + NODE_PURE + OTHER:
             sir = ('SIR' in entry) or entry.startswith('EBCM')
             for (kind, I0, R0) in ics:
